@@ -58,6 +58,15 @@ BX_WHY = {
 }
 
 
+def proof_level(f):
+    """An obligation of the proof script, not of the contract (see the use in main)."""
+    if f.get('labelled') or f.get('kind') in ('bounded-contract-check', 'compile'):
+        return False
+    if f['kind'] in ('invariant', 'decreases'):
+        return True
+    return f['kind'] in ('overflow', 'divzero', 'shift', 'assert', 'recommends') and bool(f.get('in_loop'))
+
+
 def default_tag():
     """Generated files are named <unit><tag>.rs.  Two checks of different properties may run at the same time and share
     units, so the property id is part of the name (VERIF_TAG overrides it for scratch runs)."""
@@ -202,6 +211,20 @@ def main():
                 bounded_standin('proof hints do not fit the code any more: ' + '; '.join(sorted({(h.get('stmt') or '')[:80] for h in hints}))[:300])
                 continue
             fails = [f for f in fails if f not in hints]
+            # The same goes for the other obligations that belong to the PROOF rather than to the contract: unlabelled loop
+            # invariants and termination measures, and unlabelled arithmetic / index obligations inside a loop body.  A
+            # behaviour-preserving edit (a field read hoisted into a local, say) can make them fail because the invariants no
+            # longer carry a fact the loop body needs, while every contract clause still holds (Verus assumes a failed
+            # invariant after the loop).  When they are all that fails, the bounded stand-in decides: a divergence on the real
+            # code is a violation with a concrete input, none leaves the property undecided.  Units without a stand-in keep
+            # reporting them as violations (there is no second opinion to ask).
+            proofish = [f for f in fails if proof_level(f)]
+            if proofish and len(proofish) == len(fails) and uname in bx.UNIT_HARNESS:
+                bounded_standin('only proof-level obligations fail (loop invariants / arithmetic inside loops): ' +
+                                '; '.join(sorted({'%s %s' % (h['fn'], h['kind']) for h in proofish}))[:300])
+                continue
+            if len(proofish) < len(fails):
+                fails = [f for f in fails if f not in proofish]
         ob, dis, fl, sm = r.account(prop) if hasattr(r, 'account') else account_verus(r, prop)
         # obligations listed as known findings are reported separately (coverage.known_finding_obligations) and are
         # not part of what this run claims to have proved
